@@ -384,8 +384,11 @@ Quiescent ==
 
 \* The environment (the harness driver) runs between polls of the runtime: when everything is
 \* idle, or - unless Settled - in a burst of several actions before the runtime is polled again.
-MayDrain == ~done /\ (Quiescent \/ (~Settled /\ burst))   \* reading / delivering is not counted
-MayAct == MayDrain /\ Len(hist) < MaxSteps
+MayEnv == ~done /\ (Quiescent \/ (~Settled /\ burst))
+MayAct == MayEnv /\ Len(hist) < MaxSteps
+\* once the script has MaxSteps actions, the remote only drains (deterministically), then Finish
+Draining == Len(hist) >= MaxSteps
+MayDrain == MayEnv /\ (~Draining \/ Quiescent)
 Open == ~closing                 \* neither stop nor unlink has been issued
 Pre == IF Quiescent THEN <<[k |-> "settle"]>> ELSE <<>>
 \* frames read from the socket since the runtime's writer last ran
@@ -455,6 +458,7 @@ Readable == wire # <<>> /\ ~(ws = "idle" /\ wreg # {} /\ ~flushed /\ ~fstart)
 \* i.e. the runtime runs: the burst is over.
 RRead(hold) ==
     /\ MayDrain /\ Readable /\ (Quiescent \/ Reads0 < SockCap)
+    /\ Draining => (~hold /\ outbox = <<>>)
     /\ breads' = Reads0 + 1 /\ burst' = (Reads0 < SockCap)
     /\ LET f == Head(wire)
            ans == Answer(f)
